@@ -139,3 +139,93 @@ func ScribbleBytes(s []byte) {
 		f[i] = byte(0x5C ^ i)
 	}
 }
+
+// ---------------------------------------------------------------- how an argument is handed over
+//
+// The statements speak of values ("every bitmap", "every string"); the same value can reach the
+// library in different shapes, and code may - wrongly - depend on the shape: a nil slice versus an
+// empty non-nil one, a string whose bytes start at an odd address because it is a substring of a
+// larger string, a byte slice carved out of the middle of a buffer. The helpers below pick a shape
+// as a function of a checksum of the case (so a replay picks the same one).
+
+// ShapeU64 returns a private copy of src; an empty src comes back as nil for about half of the
+// checksums and as an empty non-nil slice otherwise.
+func ShapeU64(src []uint64, checksum uint64) []uint64 {
+	if len(src) == 0 {
+		if Mix(checksum^0x5e1f)&1 == 0 {
+			return nil
+		}
+		return []uint64{}
+	}
+	return append(make([]uint64, 0, len(src)), src...)
+}
+
+// ShapeI32 is ShapeU64 for position lists.
+func ShapeI32(src []int32, checksum uint64) []int32 {
+	if len(src) == 0 {
+		if Mix(checksum^0x5e1f)&1 == 0 {
+			return nil
+		}
+		return []int32{}
+	}
+	return append(make([]int32, 0, len(src)), src...)
+}
+
+// ShapeStrings: nil / empty as above; the elements are passed through OddString.
+func ShapeStrings(src []string, checksum uint64) []string {
+	if len(src) == 0 {
+		if Mix(checksum^0x5e1f)&1 == 0 {
+			return nil
+		}
+		return []string{}
+	}
+	out := make([]string, len(src))
+	for i, s := range src {
+		out[i] = OddString(s, checksum+uint64(i)*0x9e37)
+	}
+	return out
+}
+
+// OddString returns a string equal to s. For about half of the checksums its bytes sit inside a
+// larger heap string at an offset of 1..7 bytes from an 8-aligned address, with non-zero bytes
+// before and after (a substring, as callers obtain from splitting a buffer); otherwise it is a fresh
+// heap string of its own (8-aligned).
+func OddString(s string, checksum uint64) string {
+	h := Mix(checksum ^ 0x0dd5)
+	if h&1 == 0 {
+		return string(append([]byte(nil), s...))
+	}
+	off := int(h>>1)%7 + 1
+	buf := make([]byte, off+len(s)+9)
+	for i := range buf {
+		buf[i] = byte(0xA5 ^ i*7)
+	}
+	copy(buf[off:], s)
+	return string(buf)[off : off+len(s)]
+}
+
+// OddBytes is OddString for byte slices: the result has len(src) bytes, starts 1..7 bytes into a larger
+// buffer and has spare capacity filled with non-zero bytes (about half of the checksums), or is a
+// fresh exact copy. tail receives the bytes of the spare capacity so that the caller can verify that
+// they were not written (nil for a fresh copy).
+func OddBytes(src []byte, checksum uint64) (b []byte, tail func() bool) {
+	h := Mix(checksum ^ 0x0dd5)
+	if h&1 == 0 {
+		return append(make([]byte, 0, len(src)), src...), func() bool { return true }
+	}
+	off := int(h>>1)%7 + 1
+	buf := make([]byte, off+len(src)+9)
+	for i := range buf {
+		buf[i] = byte(0xA5 ^ i*7)
+	}
+	copy(buf[off:], src)
+	snap := append([]byte(nil), buf...)
+	return buf[off : off+len(src)], func() bool {
+		for i := range buf {
+			if (i < off || i >= off+len(src)) && buf[i] != snap[i] {
+				return false
+			}
+		}
+		return true
+	}
+}
